@@ -815,6 +815,25 @@ func replay(o Opts) {
 	if err != nil {
 		Die("%v", err)
 	}
+	var rpk struct {
+		Case *struct {
+			Kind string `json:"kind"`
+		} `json:"case"`
+	}
+	if err := json.Unmarshal(b, &rpk); err != nil || rpk.Case == nil {
+		Die("replay file has no case: %v", err)
+	}
+	switch rpk.Case.Kind {
+	case "vnormal", "sid", "siid", "negbin", "logreg", "emnormal":
+		var rp3 struct {
+			Case *Case3 `json:"case"`
+		}
+		if err := json.Unmarshal(b, &rp3); err != nil || rp3.Case == nil {
+			Die("replay file has no round-3 case: %v", err)
+		}
+		replay3(o, rp3.Case)
+		return
+	}
 	var rp struct {
 		Case *Case `json:"case"`
 	}
@@ -829,17 +848,6 @@ func replay(o Opts) {
 			Die("replay file has no Baum-Welch case: %v", err)
 		}
 		replay2(o, rp2.Case)
-		return
-	}
-	switch rp.Case.Kind {
-	case "vnormal", "sid", "siid", "negbin", "logreg", "emnormal":
-		var rp3 struct {
-			Case *Case3 `json:"case"`
-		}
-		if err := json.Unmarshal(b, &rp3); err != nil || rp3.Case == nil {
-			Die("replay file has no round-3 case: %v", err)
-		}
-		replay3(o, rp3.Case)
 		return
 	}
 	execute(rp.Case)
